@@ -21,13 +21,55 @@ func C19(tier string) int {
 			}
 		}
 	}
-	return RunEnum(EnumSpec{Prop: "C19", Level: "exploration", Budget: 10 * time.Minute, Call: "c19", Cases: cases, Chunk: 6,
+	code := RunEnum(EnumSpec{Prop: "C19", Level: "exploration", Budget: 10 * time.Minute, Call: "c19", Cases: cases, Chunk: 6,
 		Rule: "every tear-down configuration: protocol state of the first session {greeted, authenticated, selected, IDLE, mid-literal, command in flight, held + unflushed update} x optional second session state x {LOGOUT, abrupt disconnect, RemoveUser, Server.Close}; the action and the final Server.Close must return, and no goroutine with a gluon frame may be left; distinct = distinct configurations completed",
 		Assume: []string{
 			"this check enumerates configurations, each executed once under the Go scheduler: it decides 'RemoveUser and Close return' and 'no goroutine is left' for the enumerated configurations, not for every interleaving inside them",
 			"lock-level interleavings are explored exhaustively only for the units covered by the cooperative scheduler (WriteControlledStore in C09, QueuedChannel in C02, the UIDVALIDITY generator in C04); interleavings of backend locks (user/state tables, wait groups) were not explored, and data-race freedom is not decided by interleaving exploration at all (see DESIGN.md)",
 		},
 	})
+	// interleaving part: parties acting at once, every order of their database transactions
+	cmd1 := []string{`STORE 2 +FLAGS (\Seen)`, `EXPUNGE`, `APPEND`, `MOVE 2 other`}
+	tds := []string{"drop1", "logout2", "removeuser", "close"}
+	conns := []string{"", "created"}
+	cmd2 := []string{""}
+	bound := 2
+	if tier == "thorough" {
+		cmd1 = append(cmd1, `FETCH 2 (BODY[])`, `CLOSE`, `SELECT other`, `CREATE x/y`, `UID COPY 2:3 other`)
+		tds = append(tds, "drop2")
+		conns = append(conns, "deleted", "mboxdeleted")
+		cmd2 = append(cmd2, `STORE 3 +FLAGS (\Flagged)`, `EXPUNGE`)
+		bound = 3
+	}
+	var cc []any
+	if tier == "thorough" {
+		// held-update variant: state updates are handed to the sessions by the explorer (no connector party: the
+		// updates come from session 1's own command)
+		for _, c1 := range cmd1 {
+			for _, td := range tds {
+				cc = append(cc, teardown.ConcCase{Cmd1: c1, Teardown: td, Bound: 2, Hold: true})
+			}
+		}
+	}
+	for _, c1 := range cmd1 {
+		for _, td := range tds {
+			for _, cn := range conns {
+				for _, c2 := range cmd2 {
+					if c2 != "" && td == "logout2" {
+						continue
+					}
+					cc = append(cc, teardown.ConcCase{Cmd1: c1, Cmd2: c2, Conn: cn, Teardown: td, Bound: bound})
+				}
+			}
+		}
+	}
+	c2 := RunEnumMerge("C19", "interleavings", EnumSpec{Prop: "C19", Level: "exploration", Budget: 10 * time.Minute, Call: "c19conc", Cases: cc, Chunk: 1,
+		Rule:   "parties acting at once on a real server (command in flight on session 1, optional command on session 2, optional connector update, tear-down action); every database transaction of the server parks at its start, the explorer waits for process-wide quiescence (goroutine dump: nobody but the explorer is runnable) and chooses which parked transaction proceeds; all orders within the preemption bound by depth-first replay on fresh servers; oracle: quiescent + nothing parked => every party completed (else deadlock), then Close returns and no gluon goroutine is left; distinct = distinct (case, completion statuses)",
+		Assume: []string{"interleaving part: the scheduling unit is the database transaction (plus blocking points, since a party runs until it parks, blocks or completes); interleavings inside a transaction and of memory accesses are not explored"}})
+	if c2 > code {
+		code = c2
+	}
+	return code
 }
 
 func init() { Registry["C19"] = C19 }
